@@ -110,6 +110,75 @@ def cmp_c12(case, got):
     return bad
 
 
+def _p(comps):
+    return "/" + "/".join(comps)
+
+
+def cmp_c17(case, got):
+    if got.get("panic") or got.get("error"):
+        return [("summarising panicked or failed: %s" % got.get("error"), "error")]
+    bad = []
+    common = case["common"]
+    has_paths = common != ["none"]
+    for api in ("lib", "cli"):
+        env = got[api]
+        want_common = _p(common) if has_paths else None
+        if env.get("COMMON") != want_common:
+            bad.append(("%s: COMMON is %r, expected %r" % (api, env.get("COMMON"), want_common), api + ":common"))
+        for var, entries in case["vars"].items():
+            want = sorted({"/".join(e) for e in entries}, key=lambda x: x.encode())
+            raw = env.get(var)
+            gotl = [] if raw is None else raw.split(":")
+            if gotl != want:
+                kind = "entries"
+                if sorted(set(gotl), key=lambda x: x.encode()) == want:
+                    kind = "order-or-duplicates"
+                bad.append(("%s: %s lists %r, expected %r (byte-sorted, unique)" % (api, var, gotl, want), "%s:%s" % (api, kind)))
+        extra = set(env) - set(case["vars"]) - {"COMMON"}
+        if extra:
+            bad.append(("%s: unexpected variables %s" % (api, sorted(extra)), api + ":extra"))
+    want_lines = ["%s:%s" % (l["k"], _p(l["path"])) for l in case["lines"]]
+    if got["lines"] != want_lines:
+        bad.append(("line format gives %r, expected %r" % (got["lines"], want_lines), "lines"))
+    return bad
+
+
+def _subst(v, b):
+    if v in b:
+        return b[v]
+    if v == "0":
+        return 0
+    return v
+
+
+def _doc(doc, b):
+    """spec document (field -> value, '-' = absent) with placeholders bound -> JSON object"""
+    return {k: _subst(v, b) for k, v in doc.items() if v != "-"}
+
+
+def cmp_c16(case, got):
+    if got.get("panic") or got.get("error"):
+        return [("JSON conversion panicked or failed: %s" % got.get("error"), "error")]
+    bad = []
+    if "shape" in case:
+        for v in got["variants"]:
+            want = _doc(case["doc"], v["bind"])
+            if v["json"] != want:
+                bad.append(("tag %s serialises as %s, documented form is %s" % (case["shape"], json.dumps(v["json"]), json.dumps(want)),
+                            "format:" + case["shape"]["k"]))
+            if not v["roundtrip"]:
+                bad.append(("tag %s does not survive the round trip: %s" % (case["shape"], json.dumps(v["json"])),
+                            "roundtrip:" + case["shape"]["k"]))
+        if not got.get("events_ok", True):
+            bad.append(("a generated event does not survive the round trip: %s" % got.get("events_bad"), "roundtrip:event"))
+    else:
+        want = _doc(case["redoc"], got["bind"])
+        if got["json"] != want:
+            bad.append(("tag object %s parses to %s, expected %s" % (json.dumps(got["input"]), json.dumps(got["json"]), json.dumps(want)),
+                        "decode:%s->%s" % (case["obj"]["kind"], case["tag"]["k"])))
+    return bad
+
+
 def cmp_c19(case, got):
     k = case["kind"]
     if got.get("error"):
@@ -129,6 +198,26 @@ def cmp_c19(case, got):
 
 
 SPECS = {
+    "C17": dict(
+        module="PathSummary.tla", runner="paths", cmp=cmp_c17, seeded=True,
+        nontrivial=lambda c: c["common"] != ["none"] and any(c["vars"].values()),
+        cfgs=dict(quick=["PathSummary_single.cfg", "PathSummary_sample.cfg"],
+                  thorough=["PathSummary_single.cfg", "PathSummary_sample_big.cfg"]),
+        rule="batches with at least one pathed event carrying a kind; distinct by the whole batch",
+        exhaustive=False,
+        assumptions=["paths are abstract component sequences over a small pool (shared and disjoint prefixes, a path equal to the common prefix, a name containing '-', which sorts before '/'); the functions under test do not touch the filesystem",
+                     "byte order and de-duplication of the joined entries are checked on the real output by the comparison tool; the set of entries, the common path and the line sequence come from PathSummary.tla",
+                     "path names containing the separator ':' are outside the universe"],
+    ),
+    "C16": dict(
+        module="EventJson.tla", runner="eventjson", cmp=cmp_c16, nontrivial=lambda c: True, workers=8,
+        cfgs=dict(quick=["EventJson_shapes.cfg", "EventJson_decode.cfg"],
+                  thorough=["EventJson_shapes.cfg", "EventJson_decode.cfg"]),
+        rule="every tag shape (77) and every tag object of a known kind over all subsets of the ten optional fields (19456) is a distinct case; each shape is concretised with boundary and seeded-random leaves",
+        exhaustive=True,
+        assumptions=["EventJson.tla (Doc, Decode) is the documented format; unbounded leaves (paths, pids, codes, custom signal numbers, metadata) are placeholders concretised by the harness with boundary and seeded-random values",
+                     "serde_json is trusted for JSON syntax; the check is about the mapping between events and JSON values"],
+    ),
     "C19": dict(
         module="Signals.tla", runner="signals", cmp=cmp_c19, nontrivial=lambda c: True,
         cfgs=dict(quick=["Signals.cfg"], thorough=["Signals.cfg"]),
@@ -222,14 +311,48 @@ def run(prop, tier, replay=None):
             f.write(json.dumps(c) + "\n")
     cmd = [os.path.join(vlib.BIN, "pure_runner"), spec["runner"], cp, rp]
     p = subprocess.run(cmd, stdout=subprocess.PIPE, stderr=subprocess.STDOUT, text=True, timeout=3000)
-    if p.returncode != 0:
-        sys.stderr.write(p.stdout[-3000:])
-        raise vlib.ToolError("pure_runner failed")
     results = {}
-    with open(rp) as f:
-        for line in f:
-            r = json.loads(line)
-            results[r["case"]] = r["got"]
+
+    def load():
+        results.clear()
+        if os.path.exists(rp):
+            with open(rp) as f:
+                for line in f:
+                    try:
+                        r = json.loads(line)
+                    except ValueError:
+                        continue
+                    results[r["case"]] = r["got"]
+
+    if p.returncode != 0:
+        # the code under test took the whole process down (abort, stack overflow): that is data.
+        # Re-run one case at a time, appending results, and pin each crash on the case it happened in.
+        if os.path.exists(rp):
+            os.remove(rp)
+        start, crashes = 0, 0
+        while start < len(cases) and crashes < 20:
+            q = subprocess.run(cmd + ["--incremental", str(start)], stdout=subprocess.PIPE,
+                               stderr=subprocess.STDOUT, text=True, timeout=3000)
+            load()
+            if q.returncode == 0:
+                break
+            done = [i for i in range(len(cases)) if i in results]
+            crashed = (max(done) + 1) if done else start
+            if crashed >= len(cases):
+                break
+            results[crashed] = dict(panic=True, error="the process aborted: " + q.stdout.strip().splitlines()[-1][:200] if q.stdout.strip() else "the process aborted")
+            with open(rp, "a") as f:
+                f.write(json.dumps(dict(case=crashed, got=results[crashed])) + "\n")
+            crashes += 1
+            start = crashed + 1
+        load()
+        if crashes == 0 and len(results) != len(cases):
+            sys.stderr.write(p.stdout[-3000:])
+            raise vlib.ToolError("pure_runner failed")
+        # after 20 crashes the remaining cases are not run; the crashes themselves are the verdict
+        cases = [c for c in cases if c["case"] in results]
+    else:
+        load()
     if len(results) != len(cases):
         raise vlib.ToolError("runner answered %d of %d cases" % (len(results), len(cases)))
     agreed = 0
